@@ -259,6 +259,8 @@ def run(chk):
     run_dangling(chk, prog, "K8-dangling",
                  lambda src: src.startswith(("lib/tar/", "lib/xfrm/", "lib/fstree/", "lib/util/", "bin/tar2sqfs/", "bin/gensquashfs/"))
                  and "/test/" not in src)
+    from ..progress import run_progress
+    run_progress(chk, prog, "K1-progress", lambda src: src.startswith("lib/tar/"))
     from .c15 import codec_rule
     codec_rule(chk, load_program("tar2sqfs"))     # corrupted compressed input must not make the wrappers spin
     cleanup_rule(chk)
@@ -268,4 +270,5 @@ def run(chk):
     chk.floor("K6", 30)
     chk.floor("K9-mask", 1)
     chk.floor("K8-dangling", 8)
+    chk.floor("K1-progress", 1)
     chk.floor("K-codec", 4)
